@@ -254,7 +254,7 @@ def run(rec):
                 'authority forms and quoted-strings generated from grammar. non-trivial = contains an escape, plus, '
                 'non-ASCII or a character outside unreserved; distinct by input string')
     rec.assumptions = ['reference codec vlib/models/uri.py is correct (RFC 3986 reading)',
-                       'lone surrogates excluded (not encodable as UTF-8)']
+                       'lone surrogates are excluded from every string that contains an escape (falcon encodes the input as UTF-8 first); escape-free strings with lone surrogates are included (identity)']
     maxlen = 3 if rec.tier == 'quick' else 4
     if rec.mode != 'pure':
         # twin modes: only decode differs from pure mode; drive it with the same inputs
@@ -280,6 +280,18 @@ def run(rec):
                 check_string(rec, t)
                 rec.case(t if nontrivial(t) else None)
                 rec.count('ascii_sweep')
+        # strings that cannot be UTF-8 encoded (lone surrogates, e.g. surrogateescape'd file names) but contain
+        # no escape: decoding is the identity (apart from '+'), and must not fail
+        for t in ('caf\udce9', '/files/caf\udce9+menu.txt', 'q=\ud83d', '\udfff', 'a\ud800b+c'):
+            for plus in (True, False):
+                try:
+                    got = uri.decode(t, unquote_plus=plus)
+                except Exception as ex:  # noqa
+                    rec.violation('decode-raised', {'fn': 'decode', 's': t.encode('utf-8', 'surrogatepass'), 'plus': plus, 'exc': repr(ex)})
+                    continue
+                rec.count('mon.decode_surrogate_no_escape')
+                if got != (t.replace('+', ' ') if plus else t):
+                    rec.violation('decode-mismatch', {'fn': 'decode', 's': t.encode('utf-8', 'surrogatepass'), 'plus': plus})
         for host, default, want in (('', 80, ('', 80)), ('', None, ('', None)), (':8080', None, ('', 8080)),
                                     ('[::1]', 443, ('::1', 443)), ('[::1]:0', 80, ('::1', 0)), ('a:0', 80, ('a', 0))):
             try:
